@@ -112,7 +112,7 @@ prop("C17", "exploration", (240, 5000),
           "every encodable state (proof, compressed proof, verifier-only, common, verifier circuit data, prover circuit data, whole circuit) is written, decoded by a fresh value, "
           "compared (Eq), re-encoded (byte-identical), and the restored circuit is exercised against the original in both directions (witness generation with the same entropy, "
           "restored prover -> original verifier, original proof -> restored circuit and restored verifier, digests). I/O faults: truncated input at first/last/boundary/random prefixes "
-          "(every prefix for ~1% of thorough runs) must not decode; a write error after k bytes must surface as Err. A case = one such check; distinct = (scenario, state, fault offset)",
+          "(for ~1% of thorough runs every prefix; encodings over 16 KiB: every prefix of the first and last 4 KiB plus an even stride of ~2048 interior prefixes) must not decode; a write error after k bytes must surface as Err. A case = one such check; distinct = (scenario, state, fault offset)",
      technique="deterministic simulation: crash/restart from serialized state through the crate's Read/Write seams with injected truncation and write errors; interchangeability oracle",
      text="Seeded exploration of save/restore: each party's durable state goes through the Write seam, the process state is dropped, a fresh value is restored from bytes and must be "
           "equal, re-encode identically and be interchangeable with the original for witness generation, proving and verifying; truncated inputs and failing writers are injected.",
